@@ -65,15 +65,30 @@ TEMPLATES = [
      '<g id="g3" display="none"><rect id="hidden" width="1" height="1"/></g>'
      '<ellipse id="e1" cx="30" cy="30" rx="4" ry="2" fill="url(#pat)"/>'
      '<line id="last" x1="0" y1="0" x2="9" y2="9" stroke="black"/></svg>') % NS,
+    ('<svg %s id="root" width="120" height="80">'
+     '<defs id="defs"><pattern id="pat" x="1" y="1" width="4" height="4" viewBox="0 0 8 8" preserveAspectRatio="xMidYMid meet" '
+     'patternTransform="rotate(5)"><circle id="pc" r="1" fill="red"/></pattern>'
+     '<symbol id="sym" viewBox="0 0 10 10"><rect id="sr" width="10" height="10" fill="#333"/></symbol></defs>'
+     '<rect id="r0" x="1" y="1" width="10%%" height="25%%" fill="url(#pat)"/>'
+     '<text id="t1" x="3" y="30" dx="1" dy="1" font-size="4" fill="#456" stroke="none" transform="translate(1,2)">txt'
+     '<tspan id="ts1" x="5" y="5" fill="red" transform="scale(2)">span</tspan></text>'
+     '<image id="i1" x="2" y="2" width="10" height="10" transform="rotate(3)" preserveAspectRatio="xMinYMin slice" xlink:href="none.png"/>'
+     '<a id="a1" transform="translate(3,3)"><circle id="c1" cx="5" cy="5" r="2" fill="blue"/></a>'
+     '<switch id="sw"><g id="g1" transform="skewY(3)" opacity="0.5"><line id="l1" x1="0" y1="0" x2="5%%" y2="5%%" stroke="red" stroke-width="1"/></g></switch>'
+     '<use id="u1" xlink:href="#sym" x="40" y="40" width="20" height="20"/>'
+     '<rect id="last" x="50%%" y="50%%" width="25%%" height="25%%" stroke="black" stroke-width="1%%"/></svg>') % NS,
 ]
 
 MENU = {
     "path": ["h", "M0,0 h", "A 1 1 0 0 0 1 1", "M0 0 L 1", "M0,0 a 1 1 0 2 0 1 1", "x", "", "M0,0 L5,5 Q", "z"],
     "transform": ["rotate()", "matrix(1 2 3)", "matrix(1)", "scale(a)", "translate(", "skewX()", "rotate(1 2 3 4)", "foo(1)",
-                  "scale()", "matrix(1,2,3,4,5,6,7)", "rotate(1,2)", "translate(1cm,2%)", "scale(0)"],
+                  "scale()", "matrix(1,2,3,4,5,6,7)", "rotate(1,2)", "translate(1cm,2%)", "scale(0)"]
+                 + ["%s(%s)" % (f, a) for f in ("matrix", "translate", "translateX", "translateY", "scale", "scaleX", "scaleY",
+                                                 "rotate", "skew", "skewX", "skewY")
+                    for a in ("x", " ", "1 x 2", "1e999", "nan", "1em", "-", "1 2 3 4 5 6 7 8")],
     "color": ["rgb(1.5,2,3)", "rgb(1,2)", "#12", "#ggg", "hsl(x,1%,1%)", "", "url(#nope)", "notacolor", "rgb(300,-5,2)",
               "#1234567", "hsl(10,20,30)"],
-    "length": ["abc", "", "-5", "1e999", "5 5", "nan", "1e-400", "%", "10%%", "1em", "inf", "0x10"],
+    "length": ["abc", "", "-5", "1e999", "5 5", "nan", "1e-400", "%", "10%%", "1em", "inf", "0x10", "1e", "+", "--1", "1pxpx", "."],
     "points": ["1", "1,2 3", "a,b", "", "1,2,3", "1e999,2 3,4", "1 2 3 4 5"],
     "viewbox": ["0 0 0 0", "a b", "0 0 10", "0 0 -5 5", "", "0,0,1e999,5", "1 2 3 4 5"],
     "par": ["xMidYMid slice meet", "bogus", "", "none slice", "xmidymid", "slice"],
